@@ -134,11 +134,11 @@ def stepLine (s : Srv) (line : String) : Srv × String :=
       else
         let pre := contentStr (hContent s i)
         match op with
-        | "write" | "writestring" =>
+        | "write" | "writestring" | "readfrom" =>     -- (readfrom: io.Copy(f, r), non-empty r that fits one buffer = Write)
           match bytesOfHex x with
           | none => (s, "bad-op")
           | some b =>
-            let r := if op = "write" then fileWrite s i b else fileWriteString s i b
+            let r := if op = "writestring" then fileWriteString s i b else fileWrite s i b
             match r.2 with
             | .n k e => (r.1, s!"n={k} err:{wErrTag e} pre={pre} post={contentStr (hContent r.1 i)}")
             | _ => (r.1, "bad-op")
